@@ -177,6 +177,21 @@ fn main() {
                                            "expected": exp.as_ref().map(|k| k.json()), "got": o.goto.as_ref().map(|k| k.json())}}));
                         }
                     }
+                    // ---- C06 (GEN part): references of a declaration = the occurrences the specification bound to it
+                    if t.r == "def" || t.r == "spreaddef" {
+                        let id = if t.tg >= 1000 { t.tg } else { t.idx as u64 };
+                        let mut exp: Vec<Key> = prog.toks.iter().filter(|u| (u.r == "ref" && u.tg == id) || u.idx == t.idx).map(|u| Key::Tok(u.idx)).collect();
+                        exp.sort();
+                        let alt: Vec<Key> = prog.toks.iter().filter(|u| u.r == "altdef").map(|u| Key::Tok(u.idx)).collect();
+                        let got: Option<Vec<Key>> = o.refs.as_ref().map(|v| v.iter().filter(|k| !alt.contains(k)).cloned().collect());
+                        if got.as_ref() != Some(&exp) || o.refs_dup {
+                            local.push(json!({"kind": "mismatch", "prop": "C06",
+                                "features": {"what": if o.refs_dup { "duplicate reference" } else { "reference set" }, "role": t.r, "ctx": t.ctx.join("/"),
+                                             "inner": t.ctx.last().cloned().unwrap_or_default(), "got_none": o.refs.is_none(), "top_level": t.tg >= 1000},
+                                "detail": {"case": case, "text": prog.text, "token": {"idx": t.idx, "text": t.t, "offset": t.start},
+                                           "expected": exp.iter().map(|k| k.json()).collect::<Vec<_>>(), "got": got.map(|v| v.iter().map(|k| k.json()).collect::<Vec<_>>())}}));
+                        }
+                    }
                     // ---- C18: completions while typing this reference (cursor at its end)
                     if t.r == "ref" {
                         let items = a.completions(FilePos::new(M1, (t.end as u32).into()), None).unwrap().unwrap_or_default();
@@ -198,6 +213,22 @@ fn main() {
                                 "features": {"what": if got != exp { "visible set" } else if dup { "duplicate label" } else { "replace range" }, "ctx": t.ctx.join("/"), "inner": t.ctx.last().cloned().unwrap_or_default(),
                                              "missing": exp.iter().filter(|e| !got.contains(e)).collect::<Vec<_>>(), "extra": got.iter().filter(|g| !exp.contains(g)).collect::<Vec<_>>()},
                                 "detail": {"case": case, "text": prog.text, "token": {"idx": t.idx, "text": t.t, "offset": t.end}, "expected": exp, "got": got}}));
+                        }
+                    }
+                    // ---- C18: after `module.` exactly the public functions and constructors of that module
+                    if t.r == "modref" {
+                        if let Some(dot) = prog.toks.iter().find(|d| d.idx == t.idx + 1 && d.t == ".") {
+                            let items = a.completions(FilePos::new(M1, (dot.end as u32).into()), Some('.')).unwrap().unwrap_or_default();
+                            queries += 1;
+                            let mut got: Vec<String> = items.iter().map(|i| i.label.to_string()).collect();
+                            got.sort();
+                            let exp = vec!["A".to_string(), "C".to_string(), "a".to_string(), "c".to_string()];
+                            if got != exp {
+                                local.push(json!({"kind": "mismatch", "prop": "C18",
+                                    "features": {"what": "module members", "ctx": t.ctx.join("/"), "inner": t.ctx.last().cloned().unwrap_or_default(),
+                                                 "missing": exp.iter().filter(|e| !got.contains(e)).collect::<Vec<_>>(), "extra": got.iter().filter(|g| !exp.contains(g)).collect::<Vec<_>>()},
+                                    "detail": {"case": case, "text": prog.text, "token": {"idx": t.idx, "text": t.t, "offset": dot.end}, "expected": exp, "got": got}}));
+                            }
                         }
                     }
                     if want_tables {
